@@ -1,6 +1,6 @@
 """C15 -- sampling (structural clauses: tensor-shape contracts of the sampling chain)."""
 from ..core import Ctx, Ob, PropSpec, ok, viol
-from ..rules import r4, r8
+from ..rules import r4, r8, r10
 
 INNER = r4.INNER
 
@@ -36,6 +36,7 @@ def run(ctx: Ctx) -> list[Ob]:
     obs += r4.layer_contracts(ctx, {"R4s"})
     obs += r4.query_contracts(ctx, {"pad", "sample-call"})
     obs += sample_coverage(ctx)
+    obs += [o for o in r10.r10i(ctx) if o.instance.endswith(':sample')]
     obs += r8.run_guards(ctx, [g for g in r8.GUARDS_QUERIES if "SamplingQuery" in g.func])
     return obs
 
@@ -52,9 +53,10 @@ SPEC = PropSpec(
         "column is filled from the input layer of that variable' needs that layout); R4t: every concrete inner layer class overrides "
         "the refusing base sample() (otherwise the query raises for the circuits built with it, e.g. under optimize=True); R8: the "
         "guards of SamplingQuery (__init__, __call__) fire under every valuation; R4q sample-call: SamplingQuery.__call__, interpreted on an abstract (O, K, N, D) result of the sampling pass, returns (num_samples, num_variables) whose rows are the sample axis and whose columns are the variable axis (element order, not only sizes). R4u: sample() of every inner layer reads all of its inputs (selections x[:, i] of the arity axis cover 0..H-1, or the axis is reduced / unbound / flattened as a whole): an input that is never read leaves its variables at zero in every sample."
+        " R4s randomness: sample() of every input layer draws one independent random number per returned entry -- some random source (distribution.sample, randn, rand, multinomial) has as many elements as the (F, Ko, N) result; noise of shape (N,) broadcast over folds and units leaves every marginal right and the joint wrong under fold=True. R10i: no sample() updates in place a tensor that aliases its argument (`y = x[:, 0]; y += ..`): the argument is the stored output of another module, handed out as a view by the address book."
     ),
     not_decided="the distribution of the samples (statistical); which mixture component is chosen; positivity of the returned samples.",
     run=run,
-    floors={"R4u": 6, "R4s": 14, "R4q": 2, "R4t": 5},
+    floors={"R10i": 6, "R4u": 6, "R4s": 14, "R4q": 2, "R4t": 5},
     assumptions=["the shape rules of the torch / einops operators modelled in sa/tensor_ops.py (each validated against torch at development time, design_notes/devcheck)"],
 )
